@@ -30,11 +30,11 @@ func (obr *observerRunner) UpdateTableState(tableInfo *pokertable.Table) error {
 	obr.tableInfo = tableInfo
 
 	if !obr.systemMode {
-		// Filtering private information for observer
-		switch tableInfo.State.Status {
-		case pokertable.TableStateStatus_TableGamePlaying:
-			fallthrough
-		case pokertable.TableStateStatus_TableGameSettled:
+		// Filtering private information for observer. A hand state can be published
+		// under any table status (a table paused or closed from outside while a hand
+		// runs, the first snapshot of a hand while the table still reads opened), so
+		// the filter depends on the presence of a hand state, not on the status.
+		if tableInfo.State.GameState != nil {
 			tableInfo.State.GameState.AsObserver()
 		}
 	}
